@@ -180,13 +180,15 @@ type DAct struct {
 	Name   string            `json:"name,omitempty"`
 	Labels map[string]string `json:"labels,omitempty"`
 	Node   int               `json:"node"` // parent (mknode, -1 = root) or target
-	Kind   string            `json:"kind,omitempty"`
-	Filter world.FilterSpec  `json:"filter,omitempty"`
-	SlowMs int               `json:"slow_ms,omitempty"`
-	Ms     int               `json:"ms,omitempty"`
+	Kind    string            `json:"kind,omitempty"`
+	Filter  world.FilterSpec  `json:"filter,omitempty"`
+	SlowMs  int               `json:"slow_ms,omitempty"`
+	Ms      int               `json:"ms,omitempty"`
+	Stalled bool              `json:"stalled,omitempty"` // the subscriber does not read until the end (C10's typed position)
 }
 
 type Diff struct {
+	Bufsiz  int                    `json:"bufsiz"` // 0 = 100; small values come with stalled subscribers and one write per quiescence
 	Prop    string                 `json:"prop"`
 	Kind    string                 `json:"kind"`    // typed package under test
 	Foreign string                 `json:"foreign"` // kind of the foreign-typed objects ("" = none)
@@ -202,8 +204,10 @@ type dnode struct {
 	te, ue []TEvent
 	tmon   []TCall
 	umon   []TCall
-	closed bool
-	filter world.FilterSpec
+	closed  bool
+	stalled bool
+	appliesAtCreate int
+	filter  world.FilterSpec
 	parent *dnode
 	tmonitor, umonitor kcache.Monitor
 }
@@ -225,15 +229,32 @@ func genC20(g GenCtx) interface{} {
 	}
 	nkeys := 1 + rng.Intn(4)
 	sc.Init = genInit(rng, nkeys)
+	small := rng.Intn(4) == 0
+	if small {
+		sc.Bufsiz = pickInt(rng, 2, 3, 5)
+	}
 	var pubs []int
 	var filt []int
 	nodes := 0
 	mk := func() {
+		if small && rng.Intn(2) == 0 {
+			p := -1
+			if len(pubs) > 0 && rng.Intn(2) == 0 {
+				p = pubs[rng.Intn(len(pubs))]
+			}
+			sc.Acts = append(sc.Acts, DAct{Op: "mknode", Node: p, Kind: "sub", Stalled: true})
+			nodes++
+			return
+		}
 		p := -1
 		if len(pubs) > 0 && rng.Intn(2) == 0 {
 			p = pubs[rng.Intn(len(pubs))]
 		}
 		k := pick(rng, "sub", "sub", "subf", "subff", "clone", "clonef", "cloneff", "monitor")
+		if small {
+			// one event per write and per stage only: no filters (a refilter is a batch), no monitors
+			k = pick(rng, "sub", "sub", "clone")
+		}
 		sc.Acts = append(sc.Acts, DAct{Op: "mknode", Node: p, Kind: k, Filter: randFilter(rng), SlowMs: pickInt(rng, 0, 0, 3)})
 		switch k {
 		case "clone", "clonef", "cloneff":
@@ -263,7 +284,7 @@ func genC20(g GenCtx) interface{} {
 		case r < 7 && sc.Foreign != "":
 			sc.Acts = append(sc.Acts, DAct{Op: "foreign", NS: pick(rng, "n1", "n2"), Name: "foreign" + pick(rng, "1", "2"), Labels: randLabels(rng)})
 			inflight++
-		case r < 8 && len(filt) > 0:
+		case r < 8 && len(filt) > 0 && !small:
 			sc.Acts = append(sc.Acts, DAct{Op: "refilter", Node: filt[rng.Intn(len(filt))], Filter: randFilter(rng)})
 		case r < 9 && nodes < 8:
 			mk()
@@ -273,19 +294,23 @@ func genC20(g GenCtx) interface{} {
 			sc.Acts = append(sc.Acts, DAct{Op: "check"})
 			inflight = 0
 		}
-		if inflight >= 15 {
+		if inflight >= 15 || (small && inflight >= 1) {
 			sc.Acts = append(sc.Acts, DAct{Op: "check"})
 			inflight = 0
 		}
 	}
 	sc.Sim = SimCfg{Strategy: randStrategy(rng, libGoroutines), PermuteMaps: true, MaxSteps: 800000, EstSteps: 4000}
+	if small {
+		// a starved stage would overflow a 2-slot buffer on its own
+		sc.Sim.Strategy = detsim.Strategy{Kind: "uniform"}
+	}
 	sc.Sim.Strategy.StallPermille = 0
 	return sc
 }
 
 func runC20(sci interface{}) {
 	sc := sci.(*Diff)
-	setBufsiz(100)
+	setBufsiz(sc.Bufsiz)
 	build := typedBuilders[sc.Kind]
 	if build == nil {
 		detsim.Fail("infra:scenario", "no typed glue for kind %q", sc.Kind)
@@ -299,6 +324,14 @@ func runC20(sci interface{}) {
 		srv.Foreign = []world.Spec{{NS: "n1", Name: "foreign0", Kind: sc.Foreign, RV: "1", Labels: map[string]string{"app": "a"}}}
 	}
 	log := world.NewLog(false)
+	overflow := false
+	log.Hook = func(level, comp, msg string) {
+		if strings.Contains(msg, "buffer full") || strings.Contains(msg, "buffer overrun") {
+			// more in flight than the (tiny) buffers hold: the two sides may lose different events
+			overflow = true
+			detsim.Count("probe:c20-overflow-run-not-compared")
+		}
+	}
 	ctx, cancel := context.WithCancel(context.Background())
 	defer cancel()
 	troot, err := build(ctx, log, srv)
@@ -400,6 +433,9 @@ func runC20(sci interface{}) {
 		}
 		detsim.HoldTime(true)
 		defer detsim.HoldTime(false)
+		if overflow {
+			return
+		}
 		cmpLists("root", troot, uroot)
 		for i, n := range nodes {
 			name := fmt.Sprintf("node%d(%s)", i, n.kind)
@@ -426,7 +462,7 @@ func runC20(sci interface{}) {
 			if !td {
 				cmpLists(name, n.t, n.u)
 			}
-			if n.t.Events != nil {
+			if n.t.Events != nil && !n.stalled {
 				a, b := sigsOf(n.te, false), sigsOf(n.ue, true)
 				if !closedAbove(n) && !sameUpToBatchOrder(a, b) {
 					detsim.Fail("typed-differs:events", "%s: typed (%s) and untyped event sequences differ\n  typed  : %v\n  untyped: %v (restricted to the package's type)", name, sc.Kind, a, b)
@@ -434,9 +470,11 @@ func runC20(sci interface{}) {
 			}
 		}
 	}
+	applies := 0
 	for _, a := range sc.Acts {
 		switch a.Op {
 		case "apply":
+			applies++
 			srv.Apply(world.Spec{NS: a.NS, Name: a.Name, Labels: a.Labels})
 		case "foreign":
 			srv.Apply(world.Spec{NS: a.NS, Name: a.Name, Labels: a.Labels, Kind: sc.Foreign})
@@ -528,8 +566,12 @@ func runC20(sci interface{}) {
 				continue
 			}
 			nodes = append(nodes, n)
-			reader(n.t.Events, &n.te)
-			reader(n.u.Events, &n.ue)
+			n.stalled = a.Stalled && a.Kind == "sub"
+			n.appliesAtCreate = applies
+			if !n.stalled {
+				reader(n.t.Events, &n.te)
+				reader(n.u.Events, &n.ue)
+			}
 			detsim.Settle() // both sides fully initialised before traffic resumes
 		}
 	}
@@ -545,6 +587,74 @@ func runC20(sci interface{}) {
 	}
 	nodes = live
 	check()
+	// stalled typed subscribers (C10's typed position): what they finally hold
+	// is an in-order subsequence of what was published, at least one buffer long
+	published := 0
+	for _, a := range sc.Acts {
+		if a.Op == "apply" || a.Op == "delete" {
+			published++
+		}
+	}
+	for i, n := range nodes {
+		if !n.stalled || closedAbove(n) {
+			continue
+		}
+		drain := func(ch <-chan TEvent) []TEvent {
+			var out []TEvent
+			for {
+				select {
+				case ev, ok := <-ch:
+					if !ok {
+						return out
+					}
+					out = append(out, ev)
+				default:
+					if len(out) > 0 || true {
+						// the converter goroutine hands events over one at a time: let it run
+						detsim.Settle()
+						select {
+						case ev, ok := <-ch:
+							if !ok {
+								return out
+							}
+							out = append(out, ev)
+							continue
+						default:
+						}
+					}
+					return out
+				}
+			}
+		}
+		te, ue := drain(n.t.Events), drain(n.u.Events)
+		for _, e := range te {
+			if e.Nil {
+				detsim.Fail("typed-differs:events", "node%d: a stalled typed subscriber of package %s drained an event with a nil resource", i, sc.Kind)
+			}
+			if isForeign(e.Obj) {
+				detsim.Fail("typed-differs:foreign-object-visible", "node%d: a stalled typed subscriber of package %s drained an event for the foreign-typed object %s", i, sc.Kind, e.Obj.ID())
+			}
+		}
+		bs := sc.Bufsiz
+		if bs <= 0 {
+			bs = 100
+		}
+		// every apply after the node's creation is exactly one event for an
+		// unfiltered subscriber; it may only lose what exceeds its buffer
+		need := applies - n.appliesAtCreate
+		if need > bs {
+			need = bs
+		}
+		for p := n.parent; p != nil; p = p.parent {
+			if p.kind != "clone" {
+				need = 0 // below a filter the count is not determined by the writes alone
+			}
+		}
+		if len(te) < need {
+			detsim.Fail("typed-differs:stalled-consumer", "node%d: the stalled typed subscriber of package %s kept %d events (untyped: %d) although %d objects were written after its creation and its buffer holds %d: the typed layer lost events its buffer had room for", i, sc.Kind, len(te), len(ue), applies-n.appliesAtCreate, bs)
+		}
+		_ = published
+	}
 	troot.Close()
 	uroot.Close()
 	if !world.WaitClosed(troot.Done(), time.Millisecond) || !world.WaitClosed(uroot.Done(), time.Millisecond) {
